@@ -520,6 +520,9 @@ def p_objective_history(a):
         o = OBJ.MaximizeSmallestWeightedSum(seq_of([w / sc for w in a["weights"]] if sc != 1 else list(a["weights"]), a.get("wkind", "list")))
     else:
         o = objective(a["o"], a.get("ok", 0))
+        if "decoy_k" in a:
+            # ANOTHER object of the same class with a different k, built after the one under test: objects must not share state
+            _other = objective(a["o"], a["decoy_k"])
     out = []
     buf = None      # with "inplace": ONE mutable vector object (list or array), updated in place between the evaluations
     for sums, srt, kind in a["seq"]:
